@@ -138,6 +138,52 @@ func runC11(r *vhlib.Run) {
 			}
 		}
 	}
+	// ReadByte-only sources with many step boundaries: larger dynamic-Huffman streams, small
+	// Read buffers (every Read ends a decoding step and synchronises the offsets)
+	nbr := 40
+	if !r.Quick() {
+		nbr = 1200
+	}
+	for _, c := range codecs() {
+		if c.Name == "brotli" {
+			continue // brotli treats a ReadByte-only source like any other Reader
+		}
+		var byteOnly srcKind
+		for _, sk := range kinds {
+			if sk.Name == "ByteReader" {
+				byteOnly = sk
+			}
+		}
+		for i := 0; i < nbr; i++ {
+			s := c.Valid(rng, 12000)
+			trailer := vhlib.RandBytes(rng, rng.Intn(9))
+			if c.Multi {
+				trailer = nil
+			}
+			data := append(append([]byte{}, s.Data...), trailer...)
+			sched := []int{1 + rng.Intn(40), 1 + rng.Intn(300), 1 + rng.Intn(40)}
+			o := observe(c, data, byteOnly, sched, rng)
+			r.Eval(c.Name+":ByteReader-steps", true, data, []byte(fmt.Sprint(sched)))
+			rp := map[string]interface{}{"codec": c.Name, "stream": vhlib.Hex(s.Data), "trailer": vhlib.Hex(trailer), "source": "ByteReader", "schedule": sched}
+			if o.Panic != "" {
+				r.Violate("panic", o.Panic, rp)
+				continue
+			}
+			if o.Bad != "" {
+				r.Violate("contract", c.Name+": "+o.Bad, rp)
+			}
+			if o.Cls != "nil" || !bytes.Equal(o.Out, s.Plain) {
+				r.Violate("trailing-bytes-change-result", fmt.Sprintf("%s src=ByteReader class=%s", c.Name, o.Cls), rp)
+				continue
+			}
+			if o.In != int64(len(s.Data)) {
+				r.Violate("input-offset", fmt.Sprintf("%s src=ByteReader in=%d stream=%d", c.Name, o.In, len(s.Data)), rp)
+			}
+			if o.Left != len(trailer) {
+				r.Violate("overconsumption", fmt.Sprintf("%s src=ByteReader left=%d trailer=%d", c.Name, o.Left, len(trailer)), rp)
+			}
+		}
+	}
 	c11Gated(r)
 	r.Sample(map[string]interface{}{"stream": "4b4c84010000", "trailer": "ffee", "expect": "InputOffset=5 (stream length), 2 bytes left unread"})
 }
